@@ -269,14 +269,20 @@ theorem classification_cache_coherent (t : Table) (ops : List COp) :
   rw [update_clears_cache]
   exact memo_run_eq _ ops _ _ (by intro e he; cases he) rfl
 
+/-- the level a platform registers for a session name -/
+def sessLevel (o : Option SessTemplate) (n : Name) : Level :=
+  match o with
+  | some t => t.mk' n
+  | none => { name := n, prev := "", esc := "", desc := "", auth := false, pat := "" }
+
 /-- and it is the clearing that matters: without it, NX-OS with two sessions (one prompt pattern for all
     sessions) classifies the session prompt as the first session only, after the second was registered -/
 theorem stale_memo_without_clear :
     runMemo true false { tbl := nxos }
-      [.register ((nxosSess.get!).mk' "a"), .classify ["s:"], .register ((nxosSess.get!).mk' "b"), .classify ["s:"]]
+      [.register (sessLevel nxosSess "a"), .classify ["s:"], .register (sessLevel nxosSess "b"), .classify ["s:"]]
       = [["a"], ["a"]] ∧
     runMemo true true { tbl := nxos }
-      [.register ((nxosSess.get!).mk' "a"), .classify ["s:"], .register ((nxosSess.get!).mk' "b"), .classify ["s:"]]
+      [.register (sessLevel nxosSess "a"), .classify ["s:"], .register (sessLevel nxosSess "b"), .classify ["s:"]]
       = [["a"], ["a", "b"]] := by
   decide +kernel
 
